@@ -19,7 +19,7 @@ ASSUMPTIONS = ['the reference for every variant is the one-shot in-memory parse 
                'known finding C04-short-first-read is excluded by construction (first read covers the XML declaration)',
                'known finding C04-transcoding-error-position: when the first fatal error is a transcoding exception, only verdict, code and the prefix relation of events are compared',
                'buffer boundaries are those of XMLReader (kCharBufSize 16384 chars, kRawBufSize 49152 bytes); window of 70 absorbs spare-char carry-over drift']
-BUDGET = {'quick': 260, 'thorough': 3000}
+BUDGET = {'quick': 110, 'thorough': 2500}
 WALLCAP = {'quick': 500, 'thorough': 3600}
 
 PLAN_SIZES = [1, 2, 3, 4, 5, 7, 4095, 4096, 16383, 16384, 49151, 49152]
@@ -232,7 +232,7 @@ def worker(ctx):
     S = ctx.stats
     # ---- lane B first: deterministic share of the sweep ----
     pts = sweep_points(ctx.tier)
-    stride = 6 if ctx.tier == 'quick' else 1
+    stride = 8 if ctx.tier == 'quick' else 1
     mine = [p for i, p in enumerate(pts) if (i // stride) % ctx.nworkers == ctx.worker and (i % stride) == (ctx.seed % stride)]
     apis = ['sax2', 'dom', 'sax1']
     for j, pt in enumerate(mine):
